@@ -5,7 +5,7 @@ import ast
 from ..astutil import Env, chain, src, walk, stmts
 from ..model import Unrecognised
 
-__all__ = ['function_as_expr', 'concept_cls', 'resolve_method', 'single_return', 'returns_of',
+__all__ = ['flag_clobber', 'subclass_overrides', 'function_as_expr', 'concept_cls', 'resolve_method', 'single_return', 'returns_of',
            'top_level', 'find_calls', 'only', 'method_calls_on']
 
 
@@ -91,3 +91,40 @@ def method_calls_on(body, receiver_chain, method=None):
             if chain(n.func.value) == list(receiver_chain):
                 out.append(n)
     return sorted(out, key=lambda n: (n.lineno, n.col_offset))
+
+
+def subclass_overrides(model, base, names):
+    """(subclass, name, Func or expr) for every class in the package deriving from ``base`` that rebinds one of ``names``
+    (a method definition or a class-body alias): the rules decided on ``base`` must hold for those, too."""
+    out = []
+    for mod in model.modules.values():
+        for c in mod.classes.values():
+            if c is base or base not in model.mro(c):
+                continue
+            for n in names:
+                if n in c.methods:
+                    out.append((c, n, c.methods[n]))
+                elif n in c.aliases:
+                    out.append((c, n, c.aliases[n]))
+    return out
+
+
+def flag_clobber(R, func, flags, rule='FLAG-CLOBBER'):
+    """A mode flag the caller passes (raw / unordered / ignore_* / require_* / reorder ...) selects the careful path; the
+    function may read it but not overwrite it (``flag = bool(flag)`` style normalisations excepted)."""
+    for flag in flags:
+        if flag not in func.params:
+            R.unknown(rule, func, func.node, f'flag {flag}', 'parameter missing')
+            continue
+        writes = [s for s in stmts(func.body) if (isinstance(s, ast.Assign) and any(isinstance(t, ast.Name) and t.id == flag for t in ast.walk(ast.Tuple(elts=s.targets, ctx=ast.Store()))))
+                  or (isinstance(s, (ast.AugAssign, ast.AnnAssign)) and isinstance(s.target, ast.Name) and s.target.id == flag)]
+        bad = []
+        for w in writes:
+            v = getattr(w, 'value', None)
+            if isinstance(w, ast.Assign) and isinstance(v, ast.Call) and isinstance(v.func, ast.Name) and v.func.id == 'bool' \
+                    and len(v.args) == 1 and isinstance(v.args[0], ast.Name) and v.args[0].id == flag:
+                continue
+            bad.append(w)
+        R.check(not bad, rule, func, bad[0] if bad else func.node, f'{func.name}: the caller\'s {flag} flag is not overwritten',
+                f'{flag} only read', src(bad[0])[:90] if bad else '',
+                extra={'consequence': f'the path selected by {flag} is silently replaced for some inputs'} if bad else None)
